@@ -31,3 +31,16 @@ claim("C19",
       "and merged node sequences compared with a reference model; merge applied twice.",
       "trusts the reference model in vf/props/c19.py; integer-microsecond inputs",
       "DESIGN.md 3/C19")
+claim("C02",
+      "Hypothesis caption sets x 7 writers x options, outputs re-read by independent strict "
+      "parsers (SRT/WebVTT/TTML via lxml/SAMI via html.parser/MicroDVD); exhaustive millisecond "
+      "sweep; fresh and reused writer objects",
+      "Generated-input search: 12k (thorough 300k) sets with boundary-biased instants, runs of "
+      "identical timespans, 1-2 languages, SCC-reader float times, writer options and a "
+      "previously used writer object; stamps must match strict lexical patterns and denote "
+      "floor(t/resolution); SAMI judged by simulating a consumer on the SYNC list; every "
+      "millisecond of [0,2min) (thorough [0,2h)) and +-2 s around each hour boundary swept "
+      "through SRT, WebVTT and DFXP.",
+      "trusts vf/ref/parsers.py; float inputs within 1 us of a unit boundary are not judged; "
+      "SAMI runs of identical timespans are not generated (no per-caption reading in SAMI)",
+      "DESIGN.md 3/C02")
